@@ -35,6 +35,9 @@ type Delivery struct {
 	Read     bool
 	ReadAt   time.Time
 	ReadTick int64
+	// FilteredAt / FilteredTick: when an enforced capture filter dropped the frame instead of handing it out
+	FilteredAt   time.Time
+	FilteredTick int64
 	Drained  bool // removed by a filter installation (SetBPFAndDrain semantics)
 	// Filtered is set when an installed (emulated) filter program rejected the frame.
 	Filtered    bool
@@ -492,6 +495,7 @@ func (s *simSource) Read(buf []byte) (int, error) {
 				d.FilterType = h.curFilter
 				d.Filtered = err != nil || n == 0
 				if d.Filtered && w.Mode == FilterEnforce {
+					d.FilteredAt, d.FilteredTick = now, w.tick+1 // the tick it would have been read at
 					continue
 				}
 			}
